@@ -127,6 +127,14 @@ pub fn gen_c05(out: &mut impl Write, seed: u64, thorough: bool) {
             }
         }
     }
+    // every password length class on every back end (the loop below cycles through the first few only)
+    for be in ALL_BE {
+        for pass in passwords.iter().skip(5) {
+            let key = r.pattern(32);
+            let params = small_params(be, &mut r);
+            writeln!(out, "o.pw.rt {} local {} {} {}", be.name(), hex(pass), hex(&key), hex(pw_template(be, Kind::Local, &params, 32).as_bytes())).unwrap();
+        }
+    }
     for be in ALL_BE {
         let (psk, ppk) = pke_pair(be);
         for k in kinds() {
